@@ -156,6 +156,11 @@ def universe(tier):
     yield {}
     for v, _ in GOLDEN:
         yield v
+    # values whose JSON text is longer than any buffer or block size in sight (4 KiB, 8 KiB, 16 KiB)
+    yield {"s": "x" * 4095 + "y" + "z" * 2000}
+    yield {"l": list(range(1500))}
+    yield {"grid": [[i, i + 0.5] for i in range(1200)], "tail": "t"}
+    yield {"s": "q" * 8191, "u": "\u00e9" * 3000}
 
 
 # ---------------------------------------------------------------- spellings
